@@ -59,7 +59,7 @@ fn payload(kind: usize, seed: u64) -> Vec<u8> {
     match kind {
         0 => vec![],
         1 => vec![0x03],
-        2 => vmc::gen::payload_big(seed),
+        2 | 4 => vmc::gen::payload_big(seed),
         _ => {
             let mut v = vmc::gen::payload_big(seed ^ 7);
             while v.len() < (3 << 20) {
@@ -86,16 +86,26 @@ fn configs() -> Vec<Config> {
 const PATHS: [&str; 3] = ["/", "/printers/x", "/a%20b?q=1&r=2"];
 const SCHEMES: [&str; 2] = ["http", "ipp"];
 
-fn with_payload(m: &Msg, p: &[u8], dribble: bool) -> IppRequestResponse {
+/// source 0 = in-memory cursor, 1 = fragmenting blocking source (8191-byte reads), 2 = blocking source whose
+/// read reports ErrorKind::Interrupted (EINTR, "retry me") before the first byte and twice in the middle
+fn with_payload(m: &Msg, p: &[u8], source: u8) -> IppRequestResponse {
     let mut r = build_ipp(m);
     if !p.is_empty() {
-        if dribble {
-            let mon = vmc::env::Monitor::new();
-            let n = p.len();
-            let script = (0..(n / 8191 + 1)).map(|_| vmc::env::Step::Chunk(8191)).collect();
-            *r.payload_mut() = IppPayload::new(vmc::env::ScriptSource::new(Arc::new(p.to_vec()), script, mon));
-        } else {
-            *r.payload_mut() = IppPayload::new(std::io::Cursor::new(p.to_vec()));
+        match source {
+            0 => *r.payload_mut() = IppPayload::new(std::io::Cursor::new(p.to_vec())),
+            1 => {
+                let mon = vmc::env::Monitor::new();
+                let n = p.len();
+                let script = (0..(n / 8191 + 1)).map(|_| vmc::env::Step::Chunk(8191)).collect();
+                *r.payload_mut() = IppPayload::new(vmc::env::ScriptSource::new(Arc::new(p.to_vec()), script, mon));
+            }
+            _ => {
+                use vmc::env::Step;
+                let mon = vmc::env::Monitor::new();
+                let half = (p.len() / 2).max(1);
+                let script = vec![Step::Interrupted, Step::Chunk(half), Step::Interrupted, Step::Interrupted, Step::Chunk(p.len())];
+                *r.payload_mut() = IppPayload::new(vmc::env::ScriptSource::new(Arc::new(p.to_vec()), script, mon));
+            }
         }
     }
     r
@@ -169,7 +179,7 @@ pub fn run(ctx: &Ctx) -> ! {
     let mut rep = Report::new(
         ctx,
         "fault_enumeration",
-        "both clients (blocking ureq; async reqwest on a tokio runtime) against a hand-written loopback HTTP/1.1 peer. Request side: requests x payload {none, 1 B, 70 000 B (, 3 MiB from a fragmenting source)} x client configuration {none, 1-3 custom headers incl. user-agent override, basic auth with 4 credential shapes} x target path {/, /printers/x, /a%20b?q=1&r=2} x scheme {http, ipp} -> exactly one connection, POST, exact target, Host, content-type, headers, Basic credentials, body = request + payload (decoded by R1). Response side: responses x trailing data {none, 3 B, 70 000 B} x framing {content-length, chunked, close-delimited} x write plan {one write, one byte per write, EVERY two-piece split}. Failures: every HTTP status 400-599 with and without an IPP body; connection cut after EVERY offset of header+attributes under each framing and inside the HTTP head; stalled server with and without request_timeout. Concurrency: N = 2, 3 (4) senders through one client, the peer collects all N requests and answers in EVERY one of the N! orders. distinct = exchange script; non-trivial = exchange with a fault, fragmentation or non-default configuration",
+        "both clients (blocking ureq; async reqwest on a tokio runtime) against a hand-written loopback HTTP/1.1 peer. Request side: requests x payload {none, 1 B, 70 000 B, 70 000 B from a blocking source that reports Interrupted three times (, 3 MiB from a fragmenting source)} x client configuration {none, 1-3 custom headers incl. user-agent override, basic auth with 4 credential shapes} x target path {/, /printers/x, /a%20b?q=1&r=2} x scheme {http, ipp} -> exactly one connection, POST, exact target, Host, content-type, headers, Basic credentials, body = request + payload (decoded by R1). Response side: responses x trailing data {none, 3 B, 70 000 B} x framing {content-length, chunked, close-delimited} x write plan {one write, one byte per write, EVERY two-piece split}. Failures: every HTTP status 400-599 with and without an IPP body; connection cut after EVERY offset of header+attributes under each framing and inside the HTTP head; stalled server with and without request_timeout. Concurrency: N = 2, 3 (4) senders through one client, the peer collects all N requests and answers in EVERY one of the N! orders. distinct = exchange script; non-trivial = exchange with a fault, fragmentation or non-default configuration",
     );
     rep.assume("interleavings inside hyper / tokio / ureq are not under a controlled scheduler; send(&self) builds a fresh agent and connection per call, so the only cross-request channel is the peer's answer order, which is enumerated");
     rep.assume("verdicts depend only on outcome classes that are stable under TCP coalescing");
@@ -202,8 +212,7 @@ pub fn run(ctx: &Ctx) -> ! {
     }
 
     // ---------------- (1) request side
-    let npay = tier.pick(3usize, 4usize);
-    let radices = [2u64, reqs.len() as u64, npay as u64, cfgs.len() as u64, PATHS.len() as u64, SCHEMES.len() as u64];
+    let radices = [2u64, reqs.len() as u64, 5u64, cfgs.len() as u64, PATHS.len() as u64, SCHEMES.len() as u64];
     let total = vmc::explore::product(&radices);
     let ok_body = r1::encode(&resps[0].1);
     let mut s = Stats::new();
@@ -213,8 +222,11 @@ pub fn run(ctx: &Ctx) -> ! {
         let kind = kinds[t[0] as usize];
         let m = &reqs[t[1] as usize];
         let pay = payload(t[2] as usize, seed);
-        if t[2] == 3 && (t[3] > 1 || t[4] > 0 || t[5] > 0) {
-            return; // the 3 MiB payload: two configurations only
+        if t[2] == 3 && (tier == Tier::Quick || t[3] > 1 || t[4] > 0 || t[5] > 0) {
+            return; // the 3 MiB payload: thorough tier, two configurations only
+        }
+        if t[2] == 4 && (t[3] > 1 || t[4] > 0) {
+            return; // the interrupting source: two configurations, both schemes
         }
         let cfg = &cfgs[t[3] as usize];
         let path = PATHS[t[4] as usize];
@@ -224,7 +236,7 @@ pub fn run(ctx: &Ctx) -> ! {
         let case = json!({"section": "request", "client": kind.name(), "request": t[1], "payload_kind": t[2], "config": t[3], "path": path, "scheme": scheme});
         let mut expect = m.canon();
         expect.data = pay.clone();
-        let (result, ex, extra, port, _) = exchange(kind, rt, scheme, path, cfg, with_payload(m, &pay, t[2] == 3), Script::ok(ok_body.clone()));
+        let (result, ex, extra, port, _) = exchange(kind, rt, scheme, path, cfg, with_payload(m, &pay, match t[2] { 3 => 1, 4 => 2, _ => 0 }), Script::ok(ok_body.clone()));
         st.transitions += ex.as_ref().map(|e| e.app_bytes as u64).unwrap_or(0);
         st.states.insert(idx | 1 << 40);
         if t[2] > 0 || t[3] > 0 || t[4] > 0 {
@@ -536,7 +548,7 @@ fn concurrent(n: usize, mode: usize, order: &[usize], base: &Msg) -> Result<(), 
     let mk = |i: usize| {
         let mut m = base.clone();
         m.request_id = i as u32 + 1;
-        with_payload(&m, format!("payload-of-sender-{}", i + 1).as_bytes(), false)
+        with_payload(&m, format!("payload-of-sender-{}", i + 1).as_bytes(), 0)
     };
     let check = |i: usize, r: Result<vmc::r1::CMsg, String>| -> Result<(), String> {
         let got = r.map_err(|e| format!("sender {} failed: {}", i + 1, e))?;
